@@ -667,6 +667,11 @@ fn main() {
             for r in &rm {
                 b.remove_datum(ids[*r as usize]).expect("remove");
             }
+            if let Some(cn) = sc["clash"].as_str() {
+                if add(&mut b, cn, 4, 4).is_ok() {
+                    obs.fail("C12: adding a name that already exists in the current variant was accepted".to_string());
+                }
+            }
             for (j, p) in sc["new"].as_array().cloned().unwrap_or_default().iter().enumerate() {
                 let id = add(&mut b, &format!("n{}", j), u(p, "s"), u(p, "a").max(1)).expect("new datum");
                 by_name.insert(format!("n{}", j), id);
